@@ -1927,6 +1927,45 @@ func ruleR11_6(w *World, r *Report) {
 				if _, isBuiltin := rc.Call.Value.(*ssa.Builtin); isBuiltin {
 					continue
 				}
+				// the splice may live in a helper that is handed the auxiliary literal (`res = appendGuarded(res, sub, d, vars)`):
+				// the obligation is then about the clause lists produced inside the helper, with its parameter as the guard
+				if h := rc.Call.StaticCallee(); h != nil && len(h.Blocks) > 0 && m.inPkg[w.unwrap(h)] {
+					h = w.unwrap(h)
+					pi := -1
+					for ai, a := range rc.Call.Args {
+						if a == ssa.Value(d) {
+							pi = ai
+						}
+					}
+					if pi >= 0 && pi < len(h.Params) {
+						inner := 0
+						for _, c3 := range callsIn(h) {
+							rc3, ok3 := c3.(*ssa.Call)
+							if !ok3 || !isClauseList(rc3.Type()) {
+								continue
+							}
+							if _, isBuiltin := rc3.Call.Value.(*ssa.Builtin); isBuiltin {
+								continue
+							}
+							inner++
+							k++
+							sites++
+							key := fmt.Sprintf("%s auxiliary variable #%d, guarded clause list #%d (in %s)", w.FuncName(fn), n, k, w.FuncName(h))
+							st, detail := guardCoverage(h, h.Params[pi], rc3)
+							switch st {
+							case Discharged:
+								r.OK(id, key, w.InstrPos(rc3), detail)
+							case Violated:
+								r.Bad(id, key, w.InstrPos(rc3), detail)
+							default:
+								r.Unk(id, key, w.InstrPos(rc3), detail)
+							}
+						}
+						if inner > 0 {
+							continue
+						}
+					}
+				}
 				k++
 				sites++
 				key := fmt.Sprintf("%s auxiliary variable #%d, guarded clause list #%d", w.FuncName(fn), n, k)
@@ -1953,7 +1992,7 @@ func ruleR11_6(w *World, r *Report) {
 
 // guardCoverage decides whether every clause of the list R (result of call rc) receives the literal -d before it
 // reaches the output.
-func guardCoverage(fn *ssa.Function, d, rc *ssa.Call) (Status, string) {
+func guardCoverage(fn *ssa.Function, d ssa.Value, rc *ssa.Call) (Status, string) {
 	var elems []*ssa.IndexAddr
 	var splices []*ssa.Call
 	for _, ref := range *rc.Referrers() {
